@@ -23,6 +23,7 @@ PROFILES = [
     ({"nfiles": 2, "ndirs": 1, "bigdir": 300}, 2),
     ({"nfiles": 1, "ndirs": 0, "bigdir": 700, "bigdir_dense": True, "specials": False}, 1),
     ({"nfiles": 0, "ndirs": 0, "specials": False}, 1),
+    ({"nfiles": 2, "ndirs": 1, "specials": False, "zeros": 6}, 2),
 ]
 SIMPLE_NAME = re.compile(rb"^[A-Za-z0-9_\-.,+=/]*$")
 
@@ -85,6 +86,22 @@ def gen_config(r, kind, ents):
         cfg["nohl"] = r.random() < 0.2
         if cfg["nohl"]:
             opts.append("-H")
+    # sort file: packing order and per-file block flags; never the logical tree
+    cfg["sorttext"] = None
+    files = [e for e in ents if e.type == treegen.FILE and e.content is not None]
+    zeros = [e for e in files if e.content and not e.content.strip(b"\0")]
+    if files and (r.random() < 0.3 or (len(zeros) >= 3 and r.random() < 0.8)):
+        lines = []
+        for e in files:
+            if e in zeros and len(zeros) >= 3:
+                lines.append(b"-100 [nosparse] " + treegen.sort_name(e.path))      # zero files first and next to each other: all-zero fragment blocks
+                continue
+            if r.random() < 0.4:
+                continue
+            fl = [x for x in (b"dont_compress", b"dont_fragment", b"dont_deduplicate", b"nosparse") if r.random() < 0.25]
+            lines.append(b"%d %s%s" % (r.randrange(-3, 4), (b"[" + b",".join(fl) + b"] ") if fl else b"", treegen.sort_name(e.path)))
+        cfg["sorttext"] = b"\n".join(lines) + b"\n"
+        opts += ["-S", "sort.txt"]
     cfg["argv"] = opts + ["out.sqfs"]
     return cfg
 
@@ -248,6 +265,11 @@ def work(a):
                                     specials=prof.get("specials", True), xattrs=("safe" if kind == "packdir" and prof.get("xattrs") else prof.get("xattrs", False)),
                                     hardlinks=prof.get("hardlinks", False), big=prof.get("big", False), bigdir=prof.get("bigdir", 0),
                                     bigdir_dense=prof.get("bigdir_dense", False))
+            zsizes = [3000, 2000, 500, 3500, 1, 4095, 5000, 4096, 2500]
+            r.shuffle(zsizes)
+            for k in range(prof.get("zeros", 0)):
+                ents.append(treegen.Entry(b"zero%02d" % k, treegen.FILE, content=b"\0" * zsizes[k % len(zsizes)], mode=0o644,
+                                          uid=r.choice([0, 1000]), gid=0, mtime=r.choice([0, 1234567890])))
             if kind == "packfile":
                 ents = [e for e in ents if treegen.packfile_representable(e)]
                 treegen.emit_packfile(ents, cd)
@@ -270,6 +292,9 @@ def work(a):
                 benign = i % 2 == 1
                 plan = gen_plan(rc, cfg, benign)
                 case.argv = cfg["argv"]
+                if cfg["sorttext"] is not None:
+                    with open(os.path.join(cd, "sort.txt"), "wb") as f:
+                        f.write(cfg["sorttext"])
                 o = pipelines.run_case(bdir, case, cd, plan, "asan" if i % 3 == 0 else "plain", extra_env=cfg["env"], timeout=180, cpu=60)
                 res["runs"] += 1
                 res["benign_runs"] += benign
@@ -284,6 +309,7 @@ def work(a):
                 res["images"] += 1
                 if not img.ok():
                     res["viol"].append(dict(spec, clause="image-undecodable", detail=img.errors[0]))
+                    res["invalid"].append(dict(spec, clause="undecodable:" + re.sub(r"\d+", "N", img.errors[0])[:60], detail=img.errors[0]))   # C03 reads these
                     continue
                 sqfsdec.check_padding(img, cfg["devblk"])
                 for inv in img.invalid:
